@@ -1,4 +1,5 @@
 import Agd.Lemmas.Pools
+import Agd.Lemmas.PoolCtx
 import Agd.Tie.C07
 /-!
 # C07 — concurrent clients never see each other's answers, policies or identities
@@ -7,6 +8,10 @@ Property theorems only, about the ownership model `Agd/Model/Pools.lean` of the 
 (`Cloner.Clone` / `Dispose`, the per-type clone/put pairs, the pooled constructors, and Go's `append` on the
 slices of a message whose backing arrays — spare capacity included — are objects of their own).  Helper
 lemmas live in `Agd/Lemmas/Pools.lean`.
+
+The second part (namespace `Agd.PoolCtx`, at the end) is about the other pooled objects of a request: the request
+contexts `agd.RequestInfo`, `mainmw.filteringContext`, `filter.Request`, `filter.Response` and
+`ecscache.cacheRequest` (model `Agd/Model/PoolCtx.lean`, lemmas `Agd/Lemmas/PoolCtx.lean`).
 -/
 namespace Agd.Pools
 
@@ -712,3 +717,170 @@ example :
 #print axioms no_cap_alias
 
 end Agd.Pools
+
+/-! # Pooled request contexts
+
+`sync.Pool.Get` may hand a request ANY object that was put back before, with whatever its last user left in
+it (`Op.get r k`: the adversary picks entry `k`); a request fills fields, reads fields, and puts the object
+back.  Requests are interleaved arbitrarily.  The discipline `ReadsOkC C` is the rule the code follows
+("NOTE: Fill all fields of fltReq since it is reused from the pool", `*fctx = filteringContext{}`): a request
+reads only fields it has filled since its `Get` or the pool-constant fields `C` that the pool's `New` sets, and
+nobody ever writes a pool-constant field.  It is tied to the source field by field in `Agd/Tie/C07.lean`. -/
+namespace Agd.PoolCtx
+
+/-- context_pool_inv: whatever the requests do (no discipline needed), no two requests in flight hold the same
+context object, and an object in use is not in the pool. -/
+theorem context_pool_inv (ops : List Op) : Inv (run St.init ops) := ctx_inv_run _ _ ctx_inv_init
+
+/-- Non-vacuity: a schedule with recycling; requests 1 and 2 are in flight and hold different objects. -/
+example : Inv (run St.init (demoMix.take 12)) ∧ (run St.init (demoMix.take 12)).held 1 = some 0 ∧
+    (run St.init (demoMix.take 12)).held 2 = some 1 :=
+  ⟨context_pool_inv _, by decide, by decide⟩
+
+/-- context_never_overwritten: over any stretch of the schedule in which request `r` itself does nothing,
+whatever the other requests do (Get, Put, writes of arbitrary values into their objects), `r` keeps its context
+object, the object keeps every field value, and what `r` has read so far stays what it was. -/
+theorem context_never_overwritten (s : St) (xs : List Op) (r : Nat) (hi : Inv s) (hne : ∀ op ∈ xs, op.req ≠ r) :
+    (run s xs).held r = s.held r ∧ (∀ id, s.held r = some id → (run s xs).heap id = s.heap id) ∧
+    (run s xs).out r = s.out r := by
+  induction xs generalizing s with
+  | nil => exact ⟨rfl, fun _ _ => rfl, rfl⟩
+  | cons op rest ih =>
+    have hf := ctx_frame s op r hi (hne op List.mem_cons_self)
+    have ih' := ih (step s op) (ctx_inv_step s op hi) (fun o ho => hne o (List.mem_cons_of_mem _ ho))
+    show (run (step s op) rest).held r = _ ∧ _ ∧ (run (step s op) rest).out r = _
+    refine ⟨ih'.1.trans hf.1, ?_, ih'.2.2.trans hf.2.2.1⟩
+    intro id hid
+    have h1 : (step s op).held r = some id := by rw [hf.1]; exact hid
+    show (run (step s op) rest).heap id = s.heap id
+    rw [ih'.2.1 id h1, hf.2.1 id hid]
+
+/-- Non-vacuity: request 1 holds the recycled object 0 (fields 20, 77) while request 2 fills, reads and puts
+and request 3 takes an object and scribbles over it. -/
+example :
+    let s := run St.init (demoMix.take 10)
+    let xs : List Op := [.read 2 [0, 1], .put 2, .get 3 0, .set 3 0 99, .set 3 1 98, .put 3, .get 2 1, .set 2 1 5]
+    s.held 1 = some 0 ∧ s.heap 0 0 = 20 ∧ (run s xs).heap 0 = s.heap 0 ∧ (run s xs).held 1 = s.held 1 := by
+  intro s xs
+  have h := context_never_overwritten s xs 1 (context_pool_inv _) (by decide)
+  exact ⟨by decide, by decide, h.2.1 0 (by decide), h.1⟩
+
+/-- context_interleaving_irrelevant: in every schedule that follows the discipline, from every reachable state
+(any pool content, any stale field values), a request reads exactly what it reads when only its own operations
+run — from any state that agrees on what the request itself has established. -/
+theorem context_interleaving_irrelevant (C : List Nat) (r : Nat) (xs : List Op) (s1 s2 : St) (h1 : Inv s1)
+    (c1 : ConstZero C s1) (c2 : ConstZero C s2) (ok : ReadsOkC C s1 xs) (agree : Agree r s1 s2) :
+    (run s1 xs).out r = (run s2 (xs.filter (fun op => op.req == r))).out r :=
+  ctx_interleaving_const C r xs s1 s2 h1 c1 c2 ok agree
+
+/-- context_alone: in every disciplined schedule on a server, each request reads what it reads when it is the
+only request the server ever gets. -/
+theorem context_alone (C : List Nat) (r : Nat) (xs : List Op) (ok : ReadsOkC C St.init xs) :
+    (run St.init xs).out r = (run St.init (xs.filter (fun op => op.req == r))).out r :=
+  ctx_solo_const C r xs St.init ctx_inv_init (constZero_init C) ok rfl rfl rfl
+
+/-- The layout of `agd.RequestInfo`: 13 fields in the order of the struct; `FilteringGroup`, `ServerGroup`,
+`Server`, `Proto` (3, 5, 7, 12) are set by the pool's `New`, the other nine are filled per request. -/
+def riFields : List String :=
+  ["DeviceResult", "Location", "ECS", "FilteringGroup", "Messages", "ServerGroup", "RemoteIP", "Server", "Host", "ID",
+   "QType", "QClass", "Proto"]
+def riConst : List String := ["FilteringGroup", "ServerGroup", "Server", "Proto"]
+def riFilled : List String := ["DeviceResult", "Location", "ECS", "Messages", "RemoteIP", "Host", "ID", "QType", "QClass"]
+def fctxFields : List String :=
+  ["originalRequest", "modifiedRequest", "originalResponse", "filteredResponse", "requestResult", "responseResult",
+   "elapsed", "isDebug"]
+def fltReqFields : List String := ["DNS", "Messages", "RemoteIP", "ClientName", "Host", "QType", "QClass"]
+def fltRespFields : List String := ["DNS", "RemoteIP", "ClientName"]
+def crFields : List String := ["host", "subnet", "qType", "qClass", "reqDO", "isECSDeclined"]
+
+/-- The lists above are the structs of the source (with `Agd/Tie/C07.lean`: `*_fields_src`), and every field
+is either filled per request (one `*_fill_*_src` fact each; `filteringContext` is reset as a whole) or
+pool-constant. -/
+theorem layouts_src :
+    ",".intercalate riFields = Agd.Gen.C07.ri_fields ∧ ",".intercalate fctxFields = Agd.Gen.C07.fctx_fields ∧
+    ",".intercalate fltReqFields = Agd.Gen.C07.fltreq_fields ∧ ",".intercalate fltRespFields = Agd.Gen.C07.fltresp_fields ∧
+    ",".intercalate crFields = Agd.Gen.C07.cr_fields := by decide
+theorem ri_covered : (∀ f ∈ riFields, f ∈ riFilled ∨ f ∈ riConst) ∧ (∀ f ∈ riFilled, f ∉ riConst) ∧
+    riConst.map riFields.idxOf = [3, 5, 7, 12] ∧ riFilled.map riFields.idxOf = [0, 1, 2, 4, 6, 8, 9, 10, 11] := by decide
+
+/-- context_program_ok: a request that takes a context with `n` fields, fills every field that is not
+pool-constant (with any values), reads ALL `n` fields and puts the object back follows the discipline — from
+any state in which it holds nothing. -/
+theorem context_program_ok (n : Nat) (C : List Nat) (s : St) (r k : Nat) (vals : Nat → Nat) (hh : s.held r = none) :
+    ReadsOkC C s (prog r k (((List.range n).filter (fun f => decide (f ∉ C))).map (fun f => (f, vals f))) (List.range n)) := by
+  apply prog_readsOkC C s r k _ _ hh
+  · intro fv hfv
+    obtain ⟨f, hf, rfl⟩ := List.mem_map.mp hfv
+    have := (List.mem_filter.mp hf).2
+    simpa using this
+  · intro f hf
+    by_cases hc : f ∈ C
+    · exact Or.inr hc
+    · left
+      rw [List.map_map]
+      exact List.mem_map.mpr ⟨f, List.mem_filter.mpr ⟨hf, by simpa using hc⟩, rfl⟩
+
+/-- Two requests with the layout of `agd.RequestInfo` (13 fields, pool-constant 3, 5, 7, 12), one after the
+other: the second one recycles the object of the first, which still holds the first one's nine values, and
+reads only its own (and 0 = what `New` has set in the pool-constant fields). -/
+def riDemo : List Op :=
+  prog 0 0 (((List.range 13).filter (fun f => decide (f ∉ [3, 5, 7, 12]))).map (fun f => (f, 100 + f))) (List.range 13) ++
+  prog 1 0 (((List.range 13).filter (fun f => decide (f ∉ [3, 5, 7, 12]))).map (fun f => (f, 200 + f))) (List.range 13)
+
+theorem riDemo_ok : ReadsOkC [3, 5, 7, 12] St.init riDemo := by decide
+
+example : (run St.init (riDemo.take 13)).held 1 = some 0 ∧ (run St.init (riDemo.take 13)).heap 0 4 = 104 ∧
+    (run St.init riDemo).out 1 = [[200, 201, 202, 0, 204, 0, 206, 0, 208, 209, 210, 211, 0]] := by decide
+example : (run St.init riDemo).out 1 = (run St.init (riDemo.filter (fun op => op.req == 1))).out 1 :=
+  context_alone [3, 5, 7, 12] 1 riDemo riDemo_ok
+/-- The first program of `riDemo` through `context_program_ok`. -/
+example : ReadsOkC [3, 5, 7, 12] St.init
+    (prog 0 0 (((List.range 13).filter (fun f => decide (f ∉ [3, 5, 7, 12]))).map (fun f => (f, 100 + f))) (List.range 13)) :=
+  context_program_ok 13 [3, 5, 7, 12] St.init 0 0 (fun f => 100 + f) rfl
+
+/-- The discipline is necessary, both halves: a field that is read but not filled shows the previous
+request's value (`ri.Messages` without `ri.Messages = mw.messages`: the blocking mode of another profile), and
+a pool-constant field that somebody writes shows up in the next request. -/
+theorem context_missing_fill_counterexample :
+    ¬ ((run St.init badMix).out 1 = (run St.init (badMix.filter (fun op => op.req == 1))).out 1) :=
+  ctx_missing_reset_counterexample
+theorem context_const_write_counterexample :
+    ¬ ((run St.init constBad).out 1 = (run St.init (constBad.filter (fun op => op.req == 1))).out 1) :=
+  ctx_const_write_counterexample
+
+/-- What the model's `put` excludes and the code must not do (Tie facts `*_put_count_src`): an object that is
+put back twice (a second `Put` on an early-return path in front of the deferred one) is handed to two requests
+at once. -/
+def doublePut (s : St) (r : Nat) : St :=
+  match s.held r with
+  | none => s
+  | some id => { s with pool := id :: id :: s.pool, held := upd s.held r none, defd := upd s.defd r [] }
+
+/-- context_double_put_counterexample: request 0 (dropped by the access rules, say) puts its context back
+twice; afterwards requests 1 and 2 are in flight with the SAME object, and request 1, which has filled field 0
+with 20, reads 30 — the value of request 2. -/
+theorem context_double_put_counterexample :
+    let s := doublePut (run St.init [.get 0 0, .set 0 0 10]) 0
+    let t := run s [.get 1 0, .set 1 0 20, .get 2 0, .set 2 0 30, .read 1 [0]]
+    t.held 1 = some 0 ∧ t.held 2 = some 0 ∧ t.out 1 = [[30]] ∧ ReadsOk s [.get 1 0, .set 1 0 20, .get 2 0, .set 2 0 30, .read 1 [0]] := by
+  decide
+
+/-- With the single `put` of the model the same history is fine. -/
+example :
+    let s := run St.init [.get 0 0, .set 0 0 10, .put 0]
+    let t := run s [.get 1 0, .set 1 0 20, .get 2 0, .set 2 0 30, .read 1 [0]]
+    t.held 1 = some 0 ∧ t.held 2 = some 1 ∧ t.out 1 = [[20]] := by decide
+
+#print axioms context_pool_inv
+#print axioms context_never_overwritten
+#print axioms context_interleaving_irrelevant
+#print axioms context_alone
+#print axioms layouts_src
+#print axioms ri_covered
+#print axioms context_program_ok
+#print axioms riDemo_ok
+#print axioms context_missing_fill_counterexample
+#print axioms context_const_write_counterexample
+#print axioms context_double_put_counterexample
+
+end Agd.PoolCtx
